@@ -167,6 +167,65 @@ theorem step_handler_fail (st : St) (t : Tag) (as : List Attr) (h : Handler) (he
   simp only [step, react, hrun]
   exact execOps_attrs_fail as (handlerOps h) st false (attrs_first_table h) he
 
+/-- a start tag whose handler refuses the values records `handler` at this event, whatever follows, and the document is
+    refused with that location (the index stands for the line of the element) -/
+theorem handler_fail_located (pre post : List CEvent) (t : Tag) (attrs : List CAttr) (h : Handler)
+    (hclean : (crun CSt.init pre).st.err = none)
+    (hrun : start (crun CSt.init pre).st.state t = .run h)
+    (hh : handlerOk (crun CSt.init pre).ctx (valueHandler h) attrs = false) :
+    (crun CSt.init (pre ++ .start t attrs :: post)).st.err = some (pre.length, .handler) ∧
+    outcome (crun CSt.init (pre ++ .start t attrs :: post)).st = .refused (some (pre.length, .handler)) := by
+  have hn : (crun CSt.init pre).st.n = pre.length := by
+    rw [crun_st, run_n, absEvents_length]; simp [CSt.init, St.init]
+  have hstep : (cstep (crun CSt.init pre) (.start t attrs)).st.err = some (pre.length, .handler) := by
+    simp only [cstep, toAbs, hrun, hh]
+    rw [← hn]
+    exact step_handler_fail _ t _ h hclean hrun
+  have herr : (crun CSt.init (pre ++ .start t attrs :: post)).st.err = some (pre.length, .handler) := by
+    rw [crun_append, crun_cons, crun_st]
+    exact run_err_preserved _ _ _ hstep
+  refine ⟨herr, ?_⟩
+  have hst : (crun CSt.init (pre ++ .start t attrs :: post)).st.state = .error_ := by
+    have h1 := crun_st (pre ++ .start t attrs :: post) CSt.init
+    have h2 := run_errImplies (absEvents CSt.init (pre ++ .start t attrs :: post)) St.init (fun h0 => by cases h0)
+    rw [h1] at herr ⊢
+    have herr' : (run St.init (absEvents CSt.init (pre ++ .start t attrs :: post))).err = some (pre.length, .handler) := herr
+    exact h2 (by rw [herr']; rfl)
+  simp [outcome, hst, herr]
+
+/-- `process_point` starts from an EMPTY id (since fix c9d862c `pp_id = "";` precedes the attribute loop; before it the
+    initial value was the member left by the previous point and this fact was false) -/
+theorem point_id_starts_empty : varInit .point_ "pp_id" = .empty ∧ requiredVars .point_ = ["pp_id"] ∧
+    pointIdVars.contains "pp_id" = true ∧ attrLoop .point_ = .all := by decide
+
+/-- a `<point>` (with compared attribute names) none of whose `id` attributes has a non-blank value fails the value checks,
+    whatever the members hold -/
+theorem point_without_id (ctx : Ctx) (attrs : List CAttr) (hn : ∀ a ∈ attrs, a.name ∈ attrNames .point_)
+    (hid : ∀ a ∈ attrs, a.name = "id" → normId a.val = []) : handlerOk ctx .point_ attrs = false := by
+  have T := point_id_starts_empty
+  have hex : examined .point_ attrs = attrs := by simp [examined, T.2.2.2]
+  have henv : normId (env ctx .point_ attrs "pp_id") = [] := by
+    unfold env
+    cases hf : attrs.reverse.find? (fun a => bindVar .point_ a.name == some "pp_id") with
+    | none => simp only [T.1, srcVal]; rfl
+    | some a =>
+      have hm : a ∈ attrs := by
+        have := List.mem_of_find?_eq_some hf
+        simpa using this
+      have hp := List.find?_some hf
+      simp only [beq_iff_eq] at hp
+      have hname := hn a hm
+      have : a.name = "id" := by
+        simp only [attrNames, List.mem_cons, List.not_mem_nil, or_false] at hname
+        rcases hname with h | h | h | h | h | h
+        · exact h
+        all_goals (rw [h] at hp; exact absurd hp (by decide))
+      exact hid a hm this
+  have hr : requiredOk ctx .point_ attrs = false := by
+    simp only [requiredOk, T.2.1, List.all_cons, List.all_nil, Bool.and_true, T.2.2.1, if_true, henv]
+    rfl
+  simp only [handlerOk, hex, hr, Bool.and_false, Bool.false_and]
+
 /-! ### documented conditions along a document -/
 
 /-- every value of the examined attributes is documented for this handler and lies in its documented language / range -/
